@@ -109,6 +109,11 @@ func (s *c10State) check(step string) {
 	for _, rn := range c10Repos {
 		mr := s.repo(rn)
 		lr := repos[rn]
+		if lr == nil && len(mr.blobs) == 0 && len(mr.mans) == 0 && len(mr.tags) == 0 && len(s.open[rn]) == 0 {
+			// nobody has written to this repository yet: it is not probed either, so that its first request is a write
+			// (a read would make the store set up its default index first, which hides what a first write saves)
+			continue
+		}
 		var tl struct{ Tags []string }
 		r := doReq(s.srv, "GET", "/v2/"+rn+"/tags/list", nil, nil)
 		_ = json.Unmarshal(r.body, &tl)
